@@ -269,6 +269,8 @@ class Tr:
             f = n.func
             if isinstance(f, ast.Name) and f.id == "min" and len(n.args) == 2:
                 return f"(min {self.e(n.args[0])} {self.e(n.args[1])})"
+            if isinstance(f, ast.Name) and f.id == "bool" and len(n.args) == 1 and not n.keywords:
+                return self.cond(n.args[0])          # truthiness
             if isinstance(f, ast.Name) and f.id == "len" and len(n.args) == 1:
                 return f"({self.e(n.args[0])}).length"
             if isinstance(f, ast.Attribute) and f.attr == "join" and len(n.args) == 1 and isinstance(f.value, ast.Constant):
@@ -579,6 +581,11 @@ class Tr:
         if any(ast.unparse(s).startswith(x) for x in self.spec.get("skip_src", ())):
             return self.block(rest, ind)
         if isinstance(s, ast.Pass):
+            return self.block(rest, ind)
+        if isinstance(s, ast.FunctionDef) and not s.decorator_list and not any(isinstance(x, (ast.Nonlocal, ast.Global)) for x in ast.walk(s)):
+            # a nested function: a helper of this function, inlined where it is called (its free names are the enclosing ones)
+            self.local_funcs = dict(getattr(self, "local_funcs", {}))
+            self.local_funcs[s.name] = s
             return self.block(rest, ind)
         if isinstance(s, ast.If) and self.spec.get("raising_methods") and self._has_raising_method(s.test):
             import copy as _c
@@ -1230,6 +1237,8 @@ class Tr:
         d = self.dotted(call.func)
         if d is None:
             return None
+        if d in getattr(self, "local_funcs", {}):
+            return d
         name = d[5:] if d.startswith("self.") else d
         return name if name.startswith("_") and "." not in name and not name.startswith("__") else None
 
@@ -1266,6 +1275,8 @@ class Tr:
         return self.spec["name"] + "_" + name.strip("_")
 
     def _find_helper(self, name):
+        if name in getattr(self, "local_funcs", {}):
+            return self.local_funcs[name]
         if not self.scope:
             return None
         module, cls = self.scope
